@@ -57,8 +57,10 @@ pub fn replay_table() -> Vec<(&'static str, fn())> {
     v.extend_from_slice(c01::transport::REPLAY);
     v.extend_from_slice(c02::REPLAY);
     v.extend_from_slice(c03::REPLAY);
+    v.extend_from_slice(c03::glue::REPLAY);
     v.extend_from_slice(c04::REPLAY);
     v.extend_from_slice(c05::REPLAY);
+    v.extend_from_slice(c05::glue::REPLAY);
     v.extend_from_slice(c06::REPLAY);
     v.extend_from_slice(c07::REPLAY);
     v.extend_from_slice(c08::REPLAY);
